@@ -27,6 +27,7 @@ type btr struct {
 	bools   map[string]bool     // bool locals (held as 0/1)
 	seqName string              // name of the ansi.Print parameter of print(), "" otherwise
 	glyph   string              // local holding the glyph cell of print()
+	cellVar string              // local holding a copy of a cell (`ch := vt.activeScreen[r][c]`)
 	unknown int
 }
 
@@ -579,6 +580,25 @@ func (t *btr) assign(s *ast.AssignStmt) string {
 					t.glyph = id.Name
 					return ".skip"
 				}
+			}
+		}
+	}
+	// ch := vt.activeScreen[r][c]
+	if s.Tok == token.DEFINE && t.cellVar == "" && len(t.loops) == 0 {
+		if id, ok := lhs.(*ast.Ident); ok {
+			if r, c, ok := t.cellPlace(rhs); ok {
+				if _, isLocal := t.locals[id.Name]; !isLocal && t.loopIndex(id.Name) < 0 {
+					t.cellVar = id.Name
+					return fmt.Sprintf("(.loadCell %s %s)", r, c)
+				}
+			}
+		}
+	}
+	// <cell place>.Character = ch.Character
+	if s.Tok == token.ASSIGN && t.cellVar != "" && t.src(rhs) == t.cellVar+".Character" {
+		if sel, ok := lhs.(*ast.SelectorExpr); ok && sel.Sel.Name == "Character" {
+			if r, c, ok := t.cellPlace(sel.X); ok {
+				return fmt.Sprintf("(.setCharFromCell %s %s)", r, c)
 			}
 		}
 	}
